@@ -18,7 +18,7 @@ theorem validateB_sound {ρ : Ren} {P P' : Prog} {e e' : Nat}
     (h : validateB ρ P P' e e' = true) : IsRenaming ρ P P' e e' := by
   simp only [validateB, checks, List.all_cons, List.all_nil, Bool.and_true, Bool.and_eq_true] at h
   obtain ⟨hentry, hic, hif, hit, hiy, hib, hnil, hok, hfns, hconsts, htuples, hbuiltins, htypes, hres,
-    hcompat, hcanon⟩ := h
+    hcompat, hfparam, hbparam, hcanon⟩ := h
   exact {
     entry := by simpa using hentry
     inj_const := AMap.inj_of_injB hic
@@ -36,6 +36,8 @@ theorem validateB_sound {ρ : Ren} {P P' : Prog} {e e' : Nat}
     resources := fun r r' hr => resourceOK_spec (AMap.all_of_get hres hr)
     compat := fun f f' F hf hF t ht t' ht' c c' hc =>
       compatFnOK_spec (AMap.all_of_get hcompat hf) hF ht ht' (mem_tagPairs hc)
+    fparam := fun f f' hf c c' hc => fparamOK_spec (AMap.all_of_get hfparam hf) (mem_tagPairs hc)
+    bparam := fun b b' hb c c' hc => bparamOK_spec (AMap.all_of_get hbparam hb) (mem_tagPairs hc)
     canon := fun a a' b b' ha hb => canonOK_spec hcanon ha hb }
 
 /-- **Validator soundness.** If `checkRenaming` returns a map, `P'` is a consistent renaming of the
